@@ -675,7 +675,7 @@ def array_capacity(n):
 
 
 # --------------------------------------------------------------------------- abstract path evaluation
-def follow(fn, oracle, track=(), env=None, max_steps=5000):
+def follow(fn, oracle, track=(), env=None, max_steps=5000, visit=None):
     """Walk the CFG from the entry, taking at every two-way branch the edge chosen by oracle(atom)->bool
     (atom already normalised by polar()). Tracks assignments to the locals in `track` (values through
     eval_int under the running environment). Returns (exit kind, returned value or None, env).
@@ -690,6 +690,8 @@ def follow(fn, oracle, track=(), env=None, max_steps=5000):
             raise AnalysisBroken('abstract evaluation of %s does not terminate' % fn.q)
         vx = cfg.V[v]
         n = vx.node
+        if n is not None and visit is not None:
+            visit(n, env)
         if n is not None:
             if n.k == 'DeclStmt':
                 for d, init in n.r.get('decls', []):
@@ -708,6 +710,28 @@ def follow(fn, oracle, track=(), env=None, max_steps=5000):
             return 'end', None, env
         if len(succ) == 1:
             v = succ[0][0]
+            continue
+        blk = cfg.blocks[vx.block]
+        if blk.get('tk') == 'SwitchStmt' and v == cfg.block_last[vx.block]:
+            sw = Node(fn, blk['term'])
+            val = eval_int(sw.child('cond'), env)
+            if val is None:
+                val = oracle(sw.child('cond'))
+            if val is None:
+                raise AnalysisBroken('abstract evaluation: switch on an unknown value at %s' % sw.loc)
+            chosen, default = None, None
+            for (w, lab) in succ:
+                tb = cfg.blocks[cfg.V[w].block]
+                lb = tb.get('label')
+                if lb is not None:
+                    ln = Node(fn, lb)
+                    if ln.k == 'CaseStmt' and Node(fn, ln.r['lhs']).strip(casts=True).value == val:
+                        chosen = w
+                    elif ln.k == 'DefaultStmt':
+                        default = w
+            if chosen is None:
+                chosen = default if default is not None else succ[-1][0]
+            v = chosen
             continue
         labelled = [(w, lab) for (w, lab) in succ if lab is not None and isinstance(lab[1], bool)]
         if len(labelled) != 2:
